@@ -97,7 +97,7 @@ func genC16(rt *rapid.T) c16Case {
 		w := c16Writer{Start: drawDur(rt, "wStart")}
 		nm := rapid.IntRange(1, 4).Draw(rt, "nMsgs")
 		for j := 0; j < nm; j++ {
-			m := c16Msg{Len: rapid.SampledFrom([]int{0, 1, 100, 200, 5000, 20000}).Draw(rt, "len"), Gap: drawDur(rt, "gap")}
+			m := c16Msg{Len: rapid.SampledFrom([]int{0, 1, 100, 200, 5000, 20000, 70000, 140000}).Draw(rt, "len"), Gap: drawDur(rt, "gap")}
 			m.UseWriter = rapid.Bool().Draw(rt, "useWriter")
 			if m.UseWriter {
 				nc := rapid.IntRange(1, 4).Draw(rt, "nChunks")
